@@ -2108,74 +2108,84 @@ func updateNoDelegateRule(p *Prog, r *Report, id string) {
 	if fi == nil {
 		return
 	}
-	helpers := declaredLookupHelpers(p)
 	site := "generator.(*generator).Assign/update position"
-	var ce ssa.Instruction
-	allInstrs(sf, false, func(in ssa.Instruction) {
-		if c, ok := in.(ssa.CallInstruction); ok && ssaCalleeObj(c) != nil && ssaCalleeObj(c).Name() == "callExisting" {
-			ce = in
-		}
-	})
-	if ce == nil {
-		r.Unresolved("callExisting in generator.Assign")
-		return
-	}
-	found, why := false, "no branch on assignTo.Update precedes the lookup of existing methods: at an update position a generated sub-method for the same struct pair (created for a recursive type) is called and its result replaces FUNC's value — fields FUNC had set are lost"
-	for _, b := range sf.Blocks {
-		// a block that returns assignNoLookup(…) before the lookup of existing methods
-		if ce.Block().Dominates(b) {
-			continue
-		}
-		retNoLookup := false
-		for _, in := range b.Instrs {
-			if c, ok := in.(ssa.CallInstruction); ok && ssaCalleeObj(c) != nil && ssaCalleeObj(c).Name() == "assignNoLookup" {
-				retNoLookup = true
-			}
-		}
-		if _, endsRet := b.Instrs[len(b.Instrs)-1].(*ssa.Return); !retNoLookup || !endsRet {
-			continue
-		}
-		var dom []ssa.Value
-		for d := b; d != nil && d.Idom() != nil; d = d.Idom() {
-			idom := d.Idom()
-			if ifi, ok := idom.Instrs[len(idom.Instrs)-1].(*ssa.If); ok {
-				if idom.Succs[0].Dominates(b) && len(idom.Succs[0].Preds) == 1 {
-					dom = append(dom, ifi.Cond)
-				}
-				if idom.Succs[1].Dominates(b) && len(idom.Succs[1].Preds) == 1 {
-					dom = append(dom, negFact{ifi.Cond})
-				}
-			}
-		}
-		facts := expandFacts(dom)
-		hasUpd, helperWhy, hasHelper := false, "", false
-		for _, f := range facts {
-			if loadsField(f, "Update") {
-				hasUpd = true
-			}
-			if nf, ok := f.(negFact); ok {
-				if c, ok := nf.Value.(*ssa.Call); ok && ssaCalleeObj(c) != nil {
-					if w, ok := helpers[ssaCalleeObj(c).Origin()]; ok {
-						hasHelper, helperWhy = true, w
-					}
-				}
-			}
-		}
-		pos := p.PosStr(b.Instrs[len(b.Instrs)-1].Pos())
-		switch {
-		case !hasUpd:
-			why = pos + ": assignNoLookup is reached before the lookup of existing methods without assignTo.Update being required"
-		case !hasHelper:
-			why = pos + ": the update branch bypasses the lookup without first asking whether the user declared a conversion for the pair (C06)"
-		case helperWhy != "":
-			why = pos + ": the `declared?` helper " + helperWhy
-		default:
-			found = true
-		}
+	yes, no := true, false
+	found, why := false, ""
+	switch {
+	case lookupFirstEval(p, sf, &no, nil) != nil:
+		why = p.PosStr(lookupFirstEval(p, sf, &no, nil).Pos()) + ": assignNoLookup is reached before the lookup of existing methods without assignTo.Update being required"
+	case lookupFirstEval(p, sf, nil, &yes) != nil:
+		why = p.PosStr(lookupFirstEval(p, sf, nil, &yes).Pos()) + ": the update branch bypasses the lookup without first asking whether the user declared a conversion for the pair (C06), or the `declared?` helper is not verified"
+	case lookupFirstEval(p, sf, &yes, &no) == nil:
+		why = "no branch on assignTo.Update precedes the lookup of existing methods: at an update position a generated sub-method for the same struct pair (created for a recursive type) is called and its result replaces FUNC's value — fields FUNC had set are lost"
+	default:
+		found = true
 	}
 	if found {
 		r.OK(site, p.PosStr(fi.Decl.Pos()), "Update ∧ ¬declared → assignNoLookup, before callExisting")
 	} else {
 		r.Bad(site, p.PosStr(fi.Decl.Pos()), why)
 	}
+}
+
+// lookupFirstEval evaluates generator.Build/Assign with the Update flag of the *AssignTo and/or the answer of the
+// verified `declared by the user?` helper fixed (nil = unknown) and returns a return reached after a rule-based
+// conversion or sub-method creation was started although neither callExisting nor the delegation to Build had run.
+func lookupFirstEval(p *Prog, sf *ssa.Function, update, declared *bool) *ssa.Return {
+	helpers := declaredLookupHelpers(p)
+	named := func(in ssa.Instruction, names ...string) bool {
+		c, ok := in.(ssa.CallInstruction)
+		if !ok || ssaCalleeObj(c) == nil {
+			return false
+		}
+		o := ssaCalleeObj(c)
+		return has(names, o.Name()) && objPkgPath(o) == modPath+"/generator"
+	}
+	sc := &absScenario{
+		assume: func(v ssa.Value, _ func(ssa.Value) absVal) (absVal, bool) {
+			if update != nil && loadsField(v, "Update") {
+				if ld, ok := v.(*ssa.UnOp); ok {
+					if fa, ok := ld.X.(*ssa.FieldAddr); ok {
+						if pt, ok := fa.X.Type().Underlying().(*types.Pointer); ok && isNamed(pt.Elem(), modPath+"/builder", "AssignTo") {
+							return aBool(*update), true
+						}
+					}
+				}
+			}
+			return aUnknown, false
+		},
+		calls: func(c *ssa.Call, _ func(ssa.Value) absVal) (absVal, bool) {
+			if declared == nil || ssaCalleeObj(c) == nil {
+				return aUnknown, false
+			}
+			if w, ok := helpers[ssaCalleeObj(c).Origin()]; ok && w == "" {
+				return aBool(*declared), true
+			}
+			return aUnknown, false
+		},
+		noInline: func(callee *ssa.Function) bool {
+			switch callee.Name() {
+			case "callExisting", "createSubMethod", "buildNoLookup", "assignNoLookup", "shouldCreateSubMethod", "Build", "buildMethod":
+				return true
+			}
+			return false
+		},
+		marksState: func(in ssa.Instruction, st map[string]absVal) (string, bool) {
+			if named(in, "callExisting") {
+				return "ce", true
+			}
+			if c, ok := in.(ssa.CallInstruction); ok && ssaCalleeObj(c) != nil && isFunc(ssaCalleeObj(c), modPath+"/generator", "generator", "Build") {
+				return "ce", true
+			}
+			if named(in, "createSubMethod", "buildNoLookup", "assignNoLookup", "shouldCreateSubMethod") {
+				if v, ok := st["@ce"]; !ok || !v.b {
+					return "early", true
+				}
+			}
+			return "", false
+		},
+	}
+	return absReachState(sf, sc, func(_ *ssa.Return, _ func(ssa.Value) absVal, st map[string]absVal) bool {
+		return st["@early"].k == absBool && st["@early"].b
+	})
 }
